@@ -9,6 +9,11 @@ related by a random operation of R11 and a random reordering must give (g, mappi
 documented identities and (g*self).reorder(mapping) == other; whether a perturbed pair is
 related is decided by brute force over R11 and the answer must be (None, None) exactly when it
 is not.  Workload: random 3-D crystals x random non-diagonal integer supercells.
+History workload: per supercell a pair of objects is walked through 5 steps of [ask for the defect content] ->
+[modify in place: *= g, setocc, sup[n]=c, sup[pos]=c, reorder, fillperiodic, POSCAR_occ] -> [bring the partner, in
+place too, to an image of the result] -> [equivalencemap in both roles]; a dict model (R7, vmon.ref.supergroup.DictSuper)
+follows the documented update rules, and every answer is compared with the brute-force classification of the model
+occupations over R11.
 """
 import warnings
 import numpy as np
@@ -23,8 +28,23 @@ RULE = ('random 3-D crystal (all lattice systems, 1-3 orbits, 1-2 species, <=4 a
         'occupations (native fill + 1-4 vacancy/solute/antisite/interstitial defects, or fully random) each giving one '
         'related pair (random R11 operation + random reordering) and 2-3 perturbed pairs (atom moved / species changed / '
         'reshuffled) classified by brute force; non-trivial = supercell with > 1 site; distinct = (lattice kind, atoms per '
-        'species, S, interstitial, Nsolute, NOSYM)')
-ASSUMPTIONS = ['positions compared modulo the supercell with tolerance 1e-6 (sites are >= 0.25/|S| apart)',
+        'species, S, interstitial, Nsolute, NOSYM). In-place histories (one per supercell, own random stream): objects X, Y '
+        '(Y = image of X under a random R11 operation, reordered) and 5 steps, each: pick the target (X 60% / Y 40%); ask it '
+        'for its defect content (defectindices / KrogerVink / str / nothing, 25% each); modify it in place (40% *= g with g '
+        'from its own G, 80% of them chosen to move a defect site; 10% each setocc, sup[n]=c, sup[pos]=c with a defect-making '
+        'or healing species, reorder with a random mapping, fillperiodic(Wyckoff on/off), POSCAR_occ of the POSCAR string of '
+        'a perturbed configuration); with probability 0.7 (0.25 after *= / reorder, which keep the pair related) bring the '
+        'partner, in place by setocc / sup[n]=c in random order (80%) or POSCAR_occ (20%), to the image of the target under a '
+        'random R11 operation; then X.equivalencemap(Y) and (50%) Y.equivalencemap(X), each compared with the brute-force '
+        'classification over R11 (same clauses as for fresh pairs, tag inplace-history; query-then-imul when an object was '
+        'asked for its defects and then multiplied in place by an operation moving a defect since its last equivalencemap)')
+ASSUMPTIONS = ['history workload: expected occupations come from the dict model R7 driven by the documented update rules (occupation '
+               'after *= g: new[perm[n]] = old[n] with the geometric reference permutation of g, chemorder mapped likewise); after '
+               '*= and reorder the object must equal the model exactly (clauses C27:inplace-imul / inplace-reorder, anchors of this '
+               'property); after the bulk edits (setocc, item assignment, fillperiodic, POSCAR_occ: domain of C28) the occupation '
+               'must agree and the presentation order is taken from the object, a disagreement only ends the history '
+               '(history_dropped_model_mismatch:*, never observed)',
+               'positions compared modulo the supercell with tolerance 1e-6 (sites are >= 0.25/|S| apart)',
                'the crystal space group used by R11 is the brute-force one of vmon.ref.geom (integer rotations with '
                'entries |m|<=2 in the reduced cell), not Crystal.G',
                'two-dimensional crystals are outside the domain: Supercell (documented for 3x3 matrices) cannot be '
@@ -36,7 +56,13 @@ REQUIRED_OBS = {'supercells_checked': 40, 'eval:C27:sites': 40, 'eval:C27:op-geo
                 'related_pairs': 80, 'unrelated_pairs': 60, 'eval:C27:equiv-found': 80, 'eval:C27:equiv-none': 60,
                 'eval:C27:equiv-reorder-eq': 80, 'unrelated_same_stoichiometry': 20, 'supercells_broken_symmetry': 5,
                 'supercells_full_symmetry': 5, 'interstitial_supercells': 5, 'nosym_supercells': 3,
-                'negative_det_supercells': 5, 'nonidentity_relating_ops': 30}
+                'negative_det_supercells': 5, 'nonidentity_relating_ops': 30,
+                'inplace_histories': 60, 'history_steps': 300, 'inplace_history_pairs': 400, 'inplace_history_related': 300,
+                'inplace_history_unrelated': 40, 'history_pairs_after_query_then_imul': 50, 'history_imul_moving_defect': 60,
+                'history_pairs_self_modified': 300, 'history_pairs_other_modified': 300, 'eval:C27:inplace-imul': 100,
+                'eval:C27:inplace-reorder': 25, 'history_mutation:setocc': 20, 'history_mutation:setitem': 20,
+                'history_mutation:setitem-pos': 20, 'history_mutation:fillperiodic': 20, 'history_mutation:POSCAR_occ': 20,
+                'history_morph:edits': 100, 'history_morph:POSCAR_occ': 15}
 PER_CASE = 3
 CASE_TIMEOUT = 600
 
@@ -246,6 +272,188 @@ def same_native_move(rng, occ, chem):
     return occ
 
 
+# ------------------------------------------------------------------------------ in-place histories
+class Tracked:
+    """A Supercell object together with the dict model (R7) of what its occupation must be."""
+
+    def __init__(self, sup, model):
+        self.sup, self.model = sup, model
+        self.queried = False           # defect content asked for since construction
+        self.imul_since_query = False  # queried, then multiplied in place by an operation that moves a defect site
+        self.nmut = 0
+
+    def in_sync(self, strict):
+        occ, order = snapshot(self.sup)
+        if occ != self.model.occlist(): return False
+        if strict: return order == self.model.order
+        if [sorted(l) for l in order] != [sorted(l) for l in self.model.order]: return False
+        self.model.order = [list(l) for l in order]   # presentation order after a bulk edit is taken from the object
+        return True
+
+
+def build_tracked(template, order, nsites, nchem):
+    t = Tracked(template.copy(), R.DictSuper(nsites, nchem))
+    for c, lst in enumerate(order):
+        for n in lst:
+            t.sup.setocc(int(n), c)
+            t.model.setocc(int(n), c)
+    return t
+
+
+def morph_to(rng, t, target, template, nchem, mon):
+    """Bring the object to the occupation `target` by in-place edits. -> name of the route"""
+    nsites = len(target)
+    route = 'POSCAR_occ' if rng.uniform() < 0.2 else 'edits'
+    if route == 'POSCAR_occ':
+        z = build(template, target, [[n for n in rng.permutation(nsites) if target[n] == c] for c in range(nchem)])
+        t.sup.POSCAR_occ(z.POSCAR())
+        t.model.clear()
+        for c, lst in enumerate(z.chemorder):
+            for n in lst: t.model.setocc(int(n), c)
+    else:
+        cur = t.model.occlist()
+        for n in rng.permutation(nsites):
+            n = int(n)
+            if cur[n] == target[n]: continue
+            if rng.uniform() < 0.5: t.sup.setocc(n, int(target[n]))
+            else: t.sup[n] = int(target[n])
+            t.model.setocc(n, int(target[n]))
+    t.nmut += 1
+    mon.count('history_morph:' + route)
+    return route
+
+
+def history_pairs(mon, rng, template, ops, chem, interstitial, crys, nchem, tags, desc, nsteps):
+    """Objects that have been queried and then modified in place, interleaved with equivalencemap calls in both roles;
+    every answer against the brute-force classification of the model occupations over the reference group."""
+    nsites = len(chem)
+    perfect = [(-1 if c in interstitial else c) for c in chem]
+    # reference permutation of every operation the supercell has (geometric, not its indexmap)
+    glist = []
+    for g in template.G:
+        perm = R.find_perm(template.pos, g.rot, g.trans)
+        if perm is not None: glist.append((g, perm))
+    if not glist: return
+    occ, omode = rand_occupation(rng, template, chem, interstitial, crys.Nchem, nchem)
+    order = [[n for n in rng.permutation(nsites) if occ[n] == c] for c in range(nchem)]
+    X = build_tracked(template, order, nsites, nchem)
+    perm = ops[int(rng.integers(len(ops)))][2]
+    Y = build_tracked(template, [[perm[n] for n in (lst[j] for j in rng.permutation(len(lst)))] for lst in order], nsites, nchem)
+    htags = tags + ['inplace-history', omode]
+    log = []
+
+    def species_for(n, cur):
+        if rng.uniform() < 0.3 and cur != perfect[n]: return perfect[n]     # heal a defect
+        choices = [-1] + list(range(crys.Nchem, nchem))
+        if chem[n] in interstitial: choices = [chem[n]] + list(range(crys.Nchem, nchem)) + [chem[n], -1]
+        elif crys.Nchem > 1 and rng.uniform() < 0.3: choices = [c for c in range(crys.Nchem) if c != chem[n]]
+        return int(choices[rng.integers(len(choices))])
+
+    for step in range(nsteps):
+        T, O = (X, Y) if rng.uniform() < 0.6 else (Y, X)
+        tname = 'self' if T is X else 'other'
+        # --- a. inspection of the target (asks for the defect content)
+        q = str(rng.choice(['defectindices', 'KrogerVink', 'str', 'none']))
+        try:
+            if q == 'defectindices': T.sup.defectindices()
+            elif q == 'KrogerVink': T.sup.KrogerVink()
+            elif q == 'str': str(T.sup)
+        except Exception as e:
+            mon.check(False, 'C27:history-query:raises:' + type(e).__name__, '%s: %s | %s on %s after %s %s' % (type(e).__name__, e, q, tname, log, desc), htags)
+            return
+        if q != 'none': T.queried = True
+        # --- b. in-place modification of the target
+        mut = str(rng.choice(['imul', 'imul', 'imul', 'imul', 'setocc', 'setitem', 'setitem-pos', 'reorder', 'fillperiodic', 'POSCAR_occ']))
+        strict = mut in ('imul', 'reorder')
+        preserves = strict
+        try:
+            if mut == 'imul':
+                cur = T.model.occlist()
+                defects = [n for n in range(nsites) if cur[n] != perfect[n]]
+                cand = [k for k in range(len(glist)) if any(glist[k][1][n] != n for n in defects)]
+                k = int(cand[rng.integers(len(cand))]) if cand and rng.uniform() < 0.8 else int(rng.integers(len(glist)))
+                g, gperm = glist[k]
+                moves = any(gperm[n] != n for n in defects)
+                T.sup *= g
+                T.model.apply_perm(gperm)
+                if moves and T.queried: T.imul_since_query = True
+                mon.count('history_imul_moving_defect', moves)
+            elif mut in ('setocc', 'setitem', 'setitem-pos'):
+                n = int(rng.integers(nsites))
+                c = species_for(n, T.model.occ[n])
+                if mut == 'setocc': T.sup.setocc(n, c)
+                elif mut == 'setitem': T.sup[n] = c
+                else: T.sup[np.array(T.sup.pos[n], dtype=float)] = c
+                T.model.setocc(n, c)
+            elif mut == 'reorder':
+                mapping = [[int(j) for j in rng.permutation(len(l))] for l in T.model.order]
+                T.sup.reorder(mapping)
+                T.model.reorder(mapping)
+            elif mut == 'fillperiodic':
+                i = int(rng.integers(T.sup.N))
+                wy = bool(rng.uniform() < 0.5)
+                ci = T.sup.atomindices[i]
+                T.sup.fillperiodic(ci, Wyckoff=wy)
+                members = [i] if not wy else sorted(next(w for w in T.sup.Wyckofflist if i in w))
+                for n in range(nsites):
+                    if n % T.sup.N in members: T.model.setocc(n, int(ci[0]))
+            else:
+                base = T.model.occlist()
+                target = perturb(rng, base, nchem, str(rng.choice(['move', 'change', 'shuffle']))) or base
+                z = build(template, target, [[n for n in rng.permutation(nsites) if target[n] == c] for c in range(nchem)])
+                T.sup.POSCAR_occ(z.POSCAR())
+                T.model.clear()
+                for c, lst in enumerate(z.chemorder):
+                    for n in lst: T.model.setocc(int(n), c)
+        except Exception as e:
+            mon.check(False, 'C27:history-modify:raises:' + type(e).__name__, '%s: %s | %s on %s after %s %s' % (type(e).__name__, e, mut, tname, log, desc), htags)
+            return
+        T.nmut += 1
+        log.append('%s:%s%s' % (tname, (q + ',') if q != 'none' else '', mut))
+        mon.count('history_mutation:' + mut)
+        # the in-place product and the reordering are anchors of this property: the object must follow the model exactly
+        if strict:
+            if not mon.check(T.in_sync(True), 'C27:inplace-' + mut, lambda: 'after %s the object holds %s, documented rule gives %s %s' % (
+                    log, snapshot(T.sup), (T.model.occlist(), T.model.order), desc), htags):
+                return
+        elif not T.in_sync(False):
+            mon.count('history_dropped_model_mismatch:' + mut)   # occupancy bookkeeping is C28's business
+            return
+        # --- c. bring the other object (in place as well) to an image of the target's occupation
+        if rng.uniform() < (0.25 if preserves else 0.7):
+            perm = ops[int(rng.integers(len(ops)))][2]
+            target = R.apply_perm_occ(T.model.occlist(), perm).tolist()
+            try:
+                route = morph_to(rng, O, target, template, nchem, mon)
+            except Exception as e:
+                mon.check(False, 'C27:history-modify:raises:' + type(e).__name__, '%s: %s | morph after %s %s' % (type(e).__name__, e, log, desc), htags)
+                return
+            if not O.in_sync(False):
+                mon.count('history_dropped_model_mismatch:morph')
+                return
+            log.append('%s:morph-%s' % ('other' if O is Y else 'self', route))
+        # --- d. equivalencemap, both roles, against brute force over the reference group
+        for a, b in ((X, Y), (Y, X)):
+            if a is Y and rng.uniform() < 0.5: continue
+            oa, ob = a.model.occlist(), b.model.occlist()
+            rel = R.related(oa, ob, ops)
+            mon.count('inplace_history_pairs')
+            mon.count('inplace_history_related' if rel is not None else 'inplace_history_unrelated')
+            stale_risk = a.imul_since_query or b.imul_since_query
+            mon.count('history_pairs_after_query_then_imul', stale_risk and rel is not None)
+            mon.count('history_pairs_self_modified', a.nmut > 0)
+            mon.count('history_pairs_other_modified', b.nmut > 0)
+            nod = oa == perfect and ob == perfect
+            ptags = htags + (['defect-free'] if nod else []) + (['query-then-imul'] if stale_risk else [])
+            check_equivalence(mon, a.sup, b.sup, rel is not None, ops, ptags, dict(desc, history=list(log)),
+                              'history-' + ('self=X' if a is X else 'self=Y'))
+            a.queried = b.queried = True
+            a.imul_since_query = b.imul_since_query = False
+            if not (a.in_sync(True) and b.in_sync(True)): return   # side effects are reported by equiv-no-side-effect
+        mon.count('history_steps')
+    mon.count('inplace_histories')
+
+
 # ------------------------------------------------------------------------------ case
 def dim2_probe(mon):
     """2-D crystals: the class is documented for 3x3 matrices; record what the constructor does."""
@@ -367,6 +575,9 @@ def run_case(case):
                 else:
                     mon.count('perturbed_pairs_still_related')
                 check_equivalence(mon, a, d, rel is not None, ops, dtags, desc, 'perturbed-' + kind)
+        # objects with a history: queried, modified in place, compared again
+        history_pairs(mon, gen.rng_for(case['seed'], case['idx'], 27, 1000 + k), template, ops, chem, interstitial, crys, nchem,
+                      tags, desc, nsteps=case.get('hsteps', 5))
         # defect-free configuration against itself / its image (every site native, interstitial sites empty)
         if rng.uniform() < 0.5:
             occ0 = [(-1 if c in interstitial else c) for c in chem]
